@@ -104,7 +104,7 @@ func compareInt(i *SexpInt, expr Sexp) (int, error) {
 		}
 		return signumFloat(float64(i.Val) - e.Val), nil
 	case *SexpChar:
-		return signumInt(i.Val - int64(e.Val)), nil
+		return cmpInt64(i.Val, int64(e.Val)), nil
 	case *SexpReflect:
 		r := reflect.Value(e.Val)
 		ifa := r.Interface()
@@ -125,7 +125,7 @@ func compareInt(i *SexpInt, expr Sexp) (int, error) {
 func compareChar(c *SexpChar, expr Sexp) (int, error) {
 	switch e := expr.(type) {
 	case *SexpInt:
-		return signumInt(int64(c.Val) - e.Val), nil
+		return cmpInt64(int64(c.Val), e.Val), nil
 	case *SexpFloat:
 		if math.IsNaN(e.Val) {
 			return 2, nil
